@@ -9,8 +9,16 @@
 #![allow(unused)]
 
 #[cfg(kani)]
+mod c23_action_state;
+#[cfg(kani)]
+mod c26_decimal;
+#[cfg(kani)]
 mod c27_openness;
+#[cfg(kani)]
+mod c28_chainlink;
 #[cfg(kani)]
 mod c34_fixed_map;
 #[cfg(kani)]
 mod c35_names;
+#[cfg(kani)]
+mod c36_instruction;
